@@ -28,7 +28,7 @@ type Fixture struct {
 }
 
 func LoadFixture(name string) (*Fixture, error) {
-	f, err := os.Open("/repo/headers/test_fixtures/" + name)
+	f, err := os.Open(common.RepoDir() + "/headers/test_fixtures/" + name)
 	if err != nil {
 		return nil, err
 	}
